@@ -23,6 +23,8 @@ import traceback
 
 VERIF = os.path.dirname(os.path.dirname(os.path.abspath(__file__)))
 REPO = os.environ.get("VERIF_REPO", "/repo")
+EVIDENCE_DIR = os.environ.get("VERIF_EVIDENCE_DIR") or os.path.join(VERIF, "evidence")  # scratch runs redirect it
+REPLAY_DIR = os.environ.get("VERIF_REPLAY_DIR") or os.path.join(VERIF, "replays")
 NPROC = int(os.environ.get("VERIF_JOBS", str(min(16, os.cpu_count() or 1))))
 
 LEVELS = ("exploration", "fault_enumeration", "model_checking", "proof", "translation_validation", "other")
@@ -271,7 +273,7 @@ def validate_evidence(ev):
 
 def write_evidence(ev):
     validate_evidence(ev)
-    d = os.path.join(VERIF, "evidence")
+    d = EVIDENCE_DIR
     os.makedirs(d, exist_ok=True)
     path = os.path.join(d, ev["property_id"] + ".json")
     tmp = path + ".tmp%d" % os.getpid()
@@ -294,7 +296,7 @@ logging.getLogger().handlers[:] = [logging.NullHandler()]
 
 
 def write_replay(pid, v):
-    d = os.path.join(VERIF, "replays")
+    d = REPLAY_DIR
     os.makedirs(d, exist_ok=True)
     blob = json.dumps(dict(property=pid, key=v["key"], case=v["case"]), sort_keys=True, ensure_ascii=False)
     h = hashlib.sha1(blob.encode("utf-8")).hexdigest()[:12]
@@ -375,7 +377,7 @@ def _import_failure(prop, args, t0, exc_text):
         wall_s=round(time.time() - t0, 3),
         violations=1,
     )
-    d = os.path.join(VERIF, "evidence")
+    d = EVIDENCE_DIR
     os.makedirs(d, exist_ok=True)
     with open(os.path.join(d, prop.ID + ".json"), "w") as f:
         json.dump(ev, f, indent=1)
@@ -468,7 +470,7 @@ def _main(prop, args, t0):
         except HarnessFault:
             # a violation is never hidden behind a vacuity fault
             cov.setdefault("states", 1)
-            with open(os.path.join(VERIF, "evidence", prop.ID + ".json"), "w") as f:
+            with open(os.path.join(EVIDENCE_DIR, prop.ID + ".json"), "w") as f:
                 json.dump(ev, f, indent=1)
         for v in new[:3]:
             print("violation: %s: %s" % (v["key"], v["msg"]))
